@@ -7,7 +7,7 @@ the stream's messages, in order, and no exception escapes processIncomingPacket.
 """
 import itertools
 
-from engine.hlib import assume, same, explain, known
+from engine.hlib import lohi, assume, same, explain, known
 from engine.obl import Obl
 from spec import pdu, adu
 from harness.c01 import fields_equal, _decoder, needs_bits
@@ -52,7 +52,7 @@ def make_chunk(framing, specs, shapes, ncuts, single_bytes=False):
             if framing == "binary":
                 from harness.c14 import crc16
                 c16 = crc16(bytes([hdr[4]]) + pdu_bytes)
-                hit = (hdr[4] == 0x7B) | (hdr[4] == 0x7D) | (c16 % 256 == 0x7B) | (c16 % 256 == 0x7D) | (c16 // 256 == 0x7B) | (c16 // 256 == 0x7D)
+                hit = (hdr[4] == 0x7B) | (hdr[4] == 0x7D) | (lohi(c16)[0] == 0x7B) | (lohi(c16)[0] == 0x7D) | (lohi(c16)[1] == 0x7B) | (lohi(c16)[1] == 0x7D)
                 for j in range(len(pdu_bytes)):
                     hit = hit | (pdu_bytes[j] == 0x7B) | (pdu_bytes[j] == 0x7D)
                 assume(not hit)
